@@ -5,7 +5,13 @@
 -/
 import XotModel.Driver.Entity
 import XotModel.Driver.Tree
+import XotModel.Driver.Compare
 import XotModel.Driver.Forest
+import XotModel.Driver.IdMap
+import XotModel.Driver.Axes
+import XotModel.Driver.Output
+import XotModel.Driver.Scope
+import XotModel.Driver.Ffixed
 import XotModel.Driver.Fclone
 
 open XotModel.Driver
@@ -15,6 +21,11 @@ def dispatch (st : DState) (line : String) : DState × String :=
   | "vocab" :: rest => (handleVocab st rest).getD (st, "bad-request")
   | "entity" :: rest => (st, (handleEntity rest).getD "bad-request")
   | "tree" :: rest => (st, (handleTree rest).getD "bad-request")
+  | "cmp" :: rest => (st, (handleCmp st rest).getD "bad-request")
+  | "idmap" :: rest => (handleIdMap st rest).getD (st, "bad-request")
+  | "axes" :: rest => (st, (handleAxes rest).getD "bad-request")
+  | "ser" :: rest => (st, (handleSer st rest).getD "bad-request")
+  | "scope" :: rest => (st, (handleScope st rest).getD "bad-request")
   | _ => (st, "bad-request")
 
 structure MState where
@@ -23,6 +34,7 @@ structure MState where
 
 def dispatchAll (st : MState) (line : String) : MState × String :=
   match words line with
+  | "forest" :: "fixed" :: rest => (match handleFfixed st.forest rest with | some (fs, resp) => ({ st with forest := fs }, resp) | none => (st, "bad-request"))
   | "forest" :: rest =>
     (match (handleFclone st.d.env st.forest rest).orElse (fun _ => handleForest st.forest rest) with
      | some (fs, resp) => ({ st with forest := fs }, resp)
